@@ -81,6 +81,7 @@ class _Linalg:
         self.ctx = ctx
         self.vieta = vieta
         self.last = []
+        self.cache = {}
 
     def eigvalsh(self, a):
         a = np.asarray(a, dtype=object)
@@ -88,9 +89,16 @@ class _Linalg:
         rows = []
         for m in mats:
             eng = self.ctx.eng
-            l1, l2, l3 = (SymReal(eng.fresh_real("lam")) for _ in range(3))
             s11, s22, s33 = m[0][0], m[1][1], m[2][2]
             s12, s13, s23 = m[0][1], m[0][2], m[1][2]
+            # eigvalsh is a function: the same matrix gives the same spectrum symbols within a run
+            key = tuple(repr(x) for x in (s11, s22, s33, s12, s13, s23))
+            if key in self.cache:
+                rows.append(list(self.cache[key]))
+                self.last.append(self.cache[key])
+                continue
+            l1, l2, l3 = (SymReal(eng.fresh_real("lam")) for _ in range(3))
+            self.cache[key] = (l1, l2, l3)
             tr = s11 + s22 + s33
             i2 = s11 * s22 + s11 * s33 + s22 * s33 - s12 * s12 - s13 * s13 - s23 * s23
             det = (s11 * (s22 * s33 - s23 * s23) - s12 * (s12 * s33 - s23 * s13) + s13 * (s12 * s23 - s22 * s13))
@@ -162,12 +170,8 @@ def run(ctx, case):
             return fac.linalg.last[-1] if ctx.sym else tuple(_eig(ctx, fac, t))
 
         def same_spectrum():
-            # a function that calls eigvalsh twice sees the same ordered spectrum both times
-            if ctx.sym:
-                (a1, a2, a3), (b1, b2, b3) = fac.linalg.last[-2], fac.linalg.last[-1]
-                ctx.assume(sym_and(a1 == b1, a2 == b2, a3 == b3))
-                return a1, a2, a3
-            return tuple(_eig(ctx, fac, t))
+            # however often a function calls eigvalsh, the stub returns the same symbols for the same matrix
+            return lam_of_last()
         trace = t[0] + t[1] + t[2]
         which = kind[len("eigen_"):]
         if which == "tresca":
